@@ -388,7 +388,7 @@ fn long_run(r: f64, outputs: usize) -> Option<Bad> {
 fn main() {
     let ctx = Ctx::new("C08", "release");
     if let Some(v) = ctx.replay_case() {
-        guard::enter(&v.to_string());
+        let _guard_scope = guard::scoped(&v.to_string());
         if v["sys"] == "long" {
             ctx.finish_replay(long_run(bits(&v["r"]), v["outputs"].as_u64().unwrap_or(1000) as usize).map(|e| e.1));
         }
@@ -461,7 +461,7 @@ fn main() {
     cases.par_iter().for_each(|&(fmt, lin, len, alt, pi)| {
         let plan = &plans[pi];
         let case = json!({"sys":"conv","fmt":fmt,"lin":lin,"len":len,"alt":alt,"plan":plan_json(plan)});
-        guard::enter(&case.to_string());
+        let _guard_scope = guard::scoped(&case.to_string());
         evals.fetch_add(1, Relaxed);
         match catch(|| dispatch(fmt, lin, len, alt, plan)) {
             Ok(Ok(fp)) => ctx.observe(common::mix(common::fnv_str(&format!("{fmt}{lin}{len}{alt}{pi}")), fp)),
@@ -476,7 +476,7 @@ fn main() {
     let outputs = ctx.tier.pick(100_000, 1_000_000);
     nd_ratios.par_iter().for_each(|&r| {
         let case = json!({"sys":"long","r":r.to_bits().to_string(),"outputs":outputs});
-        guard::enter(&case.to_string());
+        let _guard_scope = guard::scoped(&case.to_string());
         if let Some((k, m)) = long_run(r, outputs) {
             ctx.violation(&k, case, m, None);
         }
